@@ -8,6 +8,7 @@
 //
 // case:   <out|err> <c0,c1,...> <dist> <mode> <seed> [ord] [same] [tsan]
 //   c_t   records logged by thread t (2..32 threads)          dist  z|s|m|l|x   payload length distribution
+//         (upper case S|M|L|X: payloads with interior/trailing/double newlines and "\r\n")
 //   mode  n plain | y yield between bytes | d dwell (the thread inside waits a little for a second one to come in)
 //   ord   append the observed order to an OK observation
 //   same  ALL threads use ONE logger type and ONE severity, every record as a one-expression statement with
@@ -185,10 +186,31 @@ std::size_t payload_len(char dist, lcg& g)
 
 std::string payload(unsigned seed, unsigned t, unsigned seq, char dist)
 {
+    // an upper-case dist letter: same lengths, but the payload contains line terminators ('\n', '\r', "\r\n",
+    // "\n\n", a trailing '\n'); records are framed by the length in the header, never by '\n'
+    bool nl = dist >= 'A' && dist <= 'Z';
+    if (nl) dist = static_cast<char>(dist - 'A' + 'a');
     lcg g{ (seed * 2654435761ULL + t * 40503ULL + seq * 9973ULL + 1) & 0x7fffffffULL };
     std::size_t n = payload_len(dist, g);
     std::string p(n, 'a');
     for (std::size_t i = 0; i < n; i++) p[i] = static_cast<char>('a' + g.next() % 26);
+    if (nl && n > 0)
+    {
+        for (std::size_t i = 0; i < n; i++)
+        {
+            unsigned r = g.next() % 12;
+            if (r == 0) p[i] = '\n';
+            if (r == 1) p[i] = '\r';
+        }
+        switch (g.next() % 5)
+        {
+        case 0: p[n - 1] = '\n'; break;                                   // trailing newline inside the payload
+        case 1: p[0] = '\r'; if (n > 1) p[1] = '\n'; break;               // "\r\n"
+        case 2: p[n / 2] = '\n'; if (n > 1) p[n / 2 - 1] = '\n'; break;   // "\n\n"
+        case 3: p[0] = '\n'; break;                                       // leading newline
+        default: p[n / 2] = '\n'; break;                                  // one interior newline
+        }
+    }
     return p;
 }
 
